@@ -196,6 +196,23 @@ theorem no_shift_preprocessing_identity {R0 R1 : ℕ} (hr : 0 < R0) (hc : 0 < R1
       ∧ (NonNeg I → centredIntensity I (comFit .noShift data R0 R1).1 (comFit .noShift data R0 R1).2 = I) :=
   ⟨centredAmplitude_noShift hr hc hI, fun h => centredIntensity_noShift hr hc hI h⟩
 
+/-- why the pre-repair origin `roi_shape / 2` was wrong: it is the `fftshift` centre `⌊N/2⌋` for even `N`
+but lies exactly half a pixel beside it for EVERY odd `N` — the shift by `−N/2` is then a genuine
+sub-pixel interpolation of `√I`, not a roll, and `no_shift_preprocessing_identity` fails (observed on the
+real code: ROI 9×7, loss/scale 0.23 at the truth; repaired in 8f1c9c7, the model follows the repair). -/
+theorem old_no_shift_centre_counterexample (N : ℕ) :
+    (N % 2 = 0 → (N : ℚ) / 2 = ((N / 2 : ℕ) : ℚ)) ∧ (N % 2 = 1 → (N : ℚ) / 2 - ((N / 2 : ℕ) : ℚ) = 1 / 2) := by
+  constructor
+  · intro h
+    obtain ⟨k, rfl⟩ : ∃ k, N = 2 * k := ⟨N / 2, by omega⟩
+    rw [Nat.mul_div_cancel_left k (by norm_num)]
+    push_cast; ring
+  · intro h
+    obtain ⟨k, rfl⟩ : ∃ k, N = 2 * k + 1 := ⟨N / 2, by omega⟩
+    have : (2 * k + 1) / 2 = k := by omega
+    rw [this]
+    push_cast; ring
+
 /-- `shift_array` (NumPy, one exponential of the summed phase) is the Fourier shift of the C16 model -/
 theorem shift_array_is_fourier_shift {nr nc : ℕ} (hr : 0 < nr) {x : RImg ℝ} (hx : Rect nr nc x) (rs cs : ℝ) :
     shiftArray x rs cs = fourierShiftReal x rs cs := shiftArray_eq_fourierShiftReal hr hx rs cs
